@@ -1961,15 +1961,16 @@ where
             self.store.add(packet.clone().try_into().unwrap()).unwrap();
         }
         self.pid_pubrel.remove(&packet_id);
+        // the PUBCOMP is awaited also when the PUBREL is only stored for a later connection
+        self.pid_pubcomp.insert(packet_id);
 
         if self.status == ConnectionStatus::Connected {
-            self.pid_pubcomp.insert(packet_id);
             events.push(GenericEvent::RequestSendPacket {
                 packet: packet.into(),
                 release_packet_id_if_send_error: None,
             });
+            self.send_post_process(&mut events);
         }
-        self.send_post_process(&mut events);
 
         events
     }
@@ -1998,15 +1999,16 @@ where
             self.store.add(packet.clone().try_into().unwrap()).unwrap();
         }
         self.pid_pubrel.remove(&packet_id);
+        // the PUBCOMP is awaited also when the PUBREL is only stored for a later connection
+        self.pid_pubcomp.insert(packet_id);
 
         if self.status == ConnectionStatus::Connected {
-            self.pid_pubcomp.insert(packet_id);
             events.push(GenericEvent::RequestSendPacket {
                 packet: packet.into(),
                 release_packet_id_if_send_error: None,
             });
+            self.send_post_process(&mut events);
         }
-        self.send_post_process(&mut events);
 
         events
     }
